@@ -1,6 +1,8 @@
 import LentilVerif.Lemmas.Fft
 import LentilVerif.Lemmas.FftDft
 import LentilVerif.Lemmas.Pad
+import LentilVerif.Lemmas.FftBridge
+import LentilVerif.Props.C02
 import Mathlib.Analysis.Real.Sqrt
 import LentilVerif.Lemmas.FftComplex
 import Mathlib.Tactic.FieldSimp
@@ -22,6 +24,18 @@ theorem refuses_tilted_wavefront (one : K) (fs : List (Fld K)) (W0 W1 : Int) (dx
     (shape : Option (Int × Int)) (scratch : Option (Arr K)) :
     propagateFft one fs true W0 W1 dx0 dx1 du0 du1 wl z os shape scratch = FftOut.notImplemented := by
   simp [propagateFft]
+
+/-- **A wavefront in which ANY field carries tilt metadata is refused** — not only the first field, not only when all do:
+`_has_tilt` (generated) is true as soon as one entry of the per-field tilt counts is non-zero -/
+theorem refuses_any_tilted_field (one : K) (fs : List (Fld K)) (ntilt : List Int) (n : Int) (hn : n ∈ ntilt) (hpos : n ≠ 0)
+    (W0 W1 : Int) (dx0 dx1 du0 du1 wl z : R) (os : Int) (shape : Option (Int × Int)) (scratch : Option (Arr K)) :
+    propagateFft one fs (Gen.hasTilt ntilt) W0 W1 dx0 dx1 du0 du1 wl z os shape scratch = FftOut.notImplemented := by
+  have h : Gen.hasTilt ntilt = true := hasTilt_true_of_mem ntilt n hn hpos
+  rw [h]; exact refuses_tilted_wavefront one fs W0 W1 dx0 dx1 du0 du1 wl z os shape scratch
+
+/-- and a wavefront none of whose fields carries tilt is not refused on that account -/
+theorem untilted_not_refused (ntilt : List Int) (h : ∀ n ∈ ntilt, n = 0) : Gen.hasTilt ntilt = false :=
+  hasTilt_false_of_all_zero ntilt h
 
 /-- **Shapes larger than the grid are refused**: `shape·oversample > fft_shape` on some axis gives `ValueError` -/
 theorem refuses_larger_shape (one : K) (fs : List (Fld K)) (W0 W1 : Int) (dx0 dx1 du0 du1 wl z : R) (os : Int)
@@ -99,7 +113,7 @@ theorem scratch_transparent (one : K) (fs : List (Fld K)) (W0 W1 S0 S1 : Int) (s
   congr 1
   apply sumRange_congr; intro a _
   congr 1
-  exact scratch_transparent_grid one fs W0 W1 S0 S1 scr scr' _ _ (emod_range _ _ hS.1) (emod_range _ _ hS.2)
+  exact scratch_transparent_grid one fs W0 W1 S0 S1 scr scr' _ _ (emod_rangeB _ _ hS.1) (emod_rangeB _ _ hS.2)
 
 end generic
 
@@ -141,7 +155,7 @@ theorem scratch_equals_no_scratch {K R : Type} [Add R] [Sub R] [Mul R] [Neg R] [
       congr 1
       apply sumRange_congr; intro a _
       congr 1
-      exact scratch_eq_pad fs W0 W1 _ _ scr hW hfit _ _ (emod_range _ _ hS.1) (emod_range _ _ hS.2)
+      exact scratch_eq_pad fs W0 W1 _ _ scr hW hfit _ _ (emod_rangeB _ _ hS.1) (emod_rangeB _ _ hS.2)
     · -- an empty grid: both transforms are empty sums
       have hsh : ∀ s : Option (Arr K), (fftGrid 1 fs W0 W1 (fftShape dx0 dx1 du0 du1 z wl os).1 (fftShape dx0 dx1 du0 du1 z wl os).2 s).s0
             = (fftShape dx0 dx1 du0 du1 z wl os).1 ∧
@@ -166,6 +180,7 @@ theorem reported_wavelength_isotropic {R : Type} [Field R] [RealLike R] [FftLike
     dftAlpha dx0 dx1 du0 du1 (propWavelength S S dx0 dx1 du0 du1 z os) z os = (1 / (S : R), 1 / (S : R)) := by
   have hp1 : dx1 * du1 ≠ 0 := hiso ▸ hp
   unfold dftAlpha propWavelength
+  simp only [Gen.dftAlphaCall, Gen.dftAlpha, Gen.fftWavelengths]
   rw [hcast, hcast]
   have e : ((S : R) / (os : R) * dx1 * du1) / z = ((S : R) / (os : R) * dx0 * du0) / z := by
     rw [mul_assoc, mul_assoc, hiso]
@@ -196,10 +211,10 @@ theorem fft_path_is_unitary_dft (hcast : ∀ n : Int, (RealLike.ofInt n : R) = (
 
 variable [FftLike R]
 
-/-- **FFT propagation = DFT propagation at the reported wavelength** (isotropic `dx·du`). Whenever `propagate_fft`
-answers, every sample of its output field equals the unitary `dft2` of the same padded input grid evaluated with the
-sampling ratio `alpha = dx·du/(lambda' z os)` computed from the wavelength `lambda'` it reports (grid-sized output, zero
-shift: what `propagate_dft` computes at `lambda'`). -/
+/-- **`_fft2 ∘ pad` = unitary `dft2` of the padded grid at the reported wavelength** (isotropic `dx·du`). Whenever
+`propagate_fft` answers, every sample of its grid-sized output field equals the unitary `dft2` of the same padded input
+grid evaluated with the sampling ratio `alpha = dx·du/(lambda' z os)` computed from the wavelength `lambda'` it reports
+(grid-sized output, zero shift). The step from here to the `propagate_dft` model is `fft_eq_propagate_dft` below. -/
 theorem fft_eq_dft_at_reported_wavelength (hcast : ∀ n : Int, (RealLike.ofInt n : R) = (n : R))
     (hper : RootPeriodic K R) (hmin : ∀ a : R, FftLike.min a a = a)
     (one : K) (fs : List (Fld K)) (W0 W1 : Int) (dx0 dx1 du0 du1 wl z : R) (os : Int)
@@ -220,7 +235,7 @@ theorem fft_eq_dft_at_reported_wavelength (hcast : ∀ n : Int, (RealLike.ofInt 
   obtain ⟨hl, h0, h1, _, hg⟩ := h
   -- isotropic sampling gives a square grid
   have hsq : S0 = S1 := by
-    rw [← h0, ← h1]; simp only [fftShape, dftAlpha, hiso]
+    rw [← h0, ← h1]; simp only [fftShape, Gen.fftAlphaCall, Gen.dftAlpha, hiso]
   subst hsq
   have hSR : (S0 : R) ≠ 0 := Int.cast_ne_zero.mpr (by omega)
   rw [h0, h1] at hl hg
@@ -242,14 +257,95 @@ end fftdft
 section complex
 open Complex
 
-attribute [local instance] realLikeReal cxLikeComplex
-
 /-- **`_fft2` = unitary `dft2` with `alpha = 1/S` over ℂ**, no hypotheses beyond a non-empty grid: for every complex
 array, every grid parity and every output index. -/
 theorem fft_path_is_unitary_dft_complex (x : Arr ℂ) (hS0 : 0 < x.s0) (hS1 : 0 < x.s1) (u v : Int) :
     (fft2c (R := ℝ) x).get u v = (dft2 x (1 / (x.s0 : ℝ)) (1 / (x.s1 : ℝ)) x.s0 x.s1 0 0 0 0 true).get u v :=
   fft_path_is_unitary_dft (fun _ => rfl) rootPeriodic_complex x hS0 hS1
     (norm_complex x.s0 x.s1 hS0 hS1) u v
+
+/-- **FFT propagation returns the same complex field as DFT propagation at the wavelength it reports** (isotropic `dx·du`),
+at `K = ℂ`, `R = ℝ`, for every output shape it accepts and with or without scratch: whenever `propagate_fft` answers
+(grid `S0 x S1`, output shape `so`, reported wavelength `lam`), every sample `[i][j]` of its `Wavefront.field` equals the
+sample of `Wavefront.field` of `propagate_dft` applied to the same fields with `alpha = dx·du/(lam·z·os)` and the same
+output samples (`propagateDft`, the model proved against the Fraunhofer sum in C02). Wavefront no larger than the grid,
+fields on its canvas (the regime `propagate_fft` supports). -/
+theorem fft_eq_propagate_dft (fs : List (Fld ℂ)) (W0 W1 : Int) (dx0 dx1 du0 du1 wl z : ℝ) (os : Int)
+    (shape : Option (Int × Int)) (scratch : Option (Arr ℂ)) (lam : ℝ) (S0 S1 : Int) (so : Int × Int) (g : Fld ℂ)
+    (h : propagateFft 1 fs false W0 W1 dx0 dx1 du0 du1 wl z os shape scratch = FftOut.ok lam S0 S1 so g)
+    (hiso : dx0 * du0 = dx1 * du1) (hp : dx0 * du0 ≠ 0) (hz : z ≠ 0) (hos : 0 < os) (hS : 0 < S0 ∧ 0 < S1)
+    (hW : 0 ≤ W0 ∧ W0 ≤ S0 ∧ 0 ≤ W1 ∧ W1 ≤ S1) (hfit : ∀ f ∈ fs, f.within W0 W1)
+    (hpos : ∀ f ∈ fs, 0 < f.arr.s0 ∧ 0 < f.arr.s1) (hso : 0 < so.1 ∧ 0 < so.2)
+    (i j : Int) (hi : 0 ≤ i ∧ i < so.1) (hj : 0 ≤ j ∧ j < so.2) :
+    (wavefrontField 1 [g] so.1 so.2).get i j =
+      (wavefrontField 1 (propagateDft (fs.map fun f => (⟨f, 0, 0, 0, 0⟩ : TField ℂ ℝ))
+          (dftAlpha dx0 dx1 du0 du1 lam z os).1 (dftAlpha dx0 dx1 du0 du1 lam z os).2 so.1 so.2 so.1 so.2 1 none)
+        so.1 so.2).get i j := by
+  have hosR : ((os : ℤ) : ℝ) ≠ 0 := Int.cast_ne_zero.mpr (by omega)
+  -- the FFT output is dft2 of the padded grid at the reported wavelength
+  have hfft := fft_eq_dft_at_reported_wavelength (K := ℂ) (R := ℝ) (fun _ => rfl) rootPeriodic_complex (fun a => min_self a)
+    1 fs W0 W1 dx0 dx1 du0 du1 wl z os shape scratch lam S0 S1 so g h hiso hp hz hosR hS.1 (norm_complex S0 S1 hS.1 hS.2)
+  -- unpack the accepted call: offsets 0, output shape fits the grid
+  have hg : g.o0 = 0 ∧ g.o1 = 0 ∧ g.arr.s0 = S0 ∧ g.arr.s1 = S1 ∧ so.1 ≤ S0 ∧ so.2 ≤ S1 := by
+    by_cases hb : shapeTooBig shape (fftShape dx0 dx1 du0 du1 z wl os) os = true
+    · simp only [propagateFft, Bool.false_eq_true, if_false, hb, if_true] at h; cases h
+    by_cases ht : scratchTooSmall scratch (fftShape dx0 dx1 du0 du1 z wl os) = true
+    · simp only [propagateFft, Bool.false_eq_true, if_false, hb, ht, if_true] at h; cases h
+    simp only [propagateFft, Bool.false_eq_true, if_false, hb, ht, FftOut.ok.injEq] at h
+    obtain ⟨_, h0, h1, hso', hg'⟩ := h
+    have hsh := fftGrid_shape fs W0 W1 (fftShape dx0 dx1 du0 du1 z wl os).1 (fftShape dx0 dx1 du0 du1 z wl os).2 scratch
+    refine ⟨by rw [← hg'], by rw [← hg'], ?_, ?_, ?_, ?_⟩
+    · rw [← hg', ← h0]; simp only [fft2c]; exact hsh.1
+    · rw [← hg', ← h1]; simp only [fft2c]; exact hsh.2
+    · rw [← hso', ← h0]; cases shape with
+      | none => simp [fftShapeOut]
+      | some sh =>
+        simp only [shapeTooBig, Bool.or_eq_true, decide_eq_true_eq, not_or, not_lt, gt_iff_lt] at hb
+        simp only [fftShapeOut]; exact hb.1
+    · rw [← hso', ← h1]; cases shape with
+      | none => simp [fftShapeOut]
+      | some sh =>
+        simp only [shapeTooBig, Bool.or_eq_true, decide_eq_true_eq, not_or, not_lt, gt_iff_lt] at hb
+        simp only [fftShapeOut]; exact hb.2
+  obtain ⟨ho0, ho1, hs0, hs1, hle0, hle1⟩ := hg
+  -- left-hand side: the crop of the grid-sized output field
+  rw [wavefrontField_get [g] so.1 so.2 i j hi hj]
+  simp only [List.map_cons, List.map_nil, List.sum_cons, List.sum_nil, add_zero]
+  have hin : g.extent.inb (i - so.1 / 2) (j - so.2 / 2) = true := by
+    rw [Extent.inb_iff, Fld.extent, arrayExtent_eq, hs0, hs1, ho0, ho1]; simp only; omega
+  have hemb : g.emb (i - so.1 / 2) (j - so.2 / 2) = g.arr.get (i - so.1 / 2 + S0 / 2) (j - so.2 / 2 + S1 / 2) := by
+    unfold Fld.emb embAt; simp only [hin, if_true]
+    rw [Fld.extent, arrayExtent_eq, hs0, hs1, ho0, ho1]; simp only
+    congr 1 <;> omega
+  rw [hemb, hfft, dft2_fftGrid fs W0 W1 S0 S1 scratch hS hW hfit hpos]
+  -- right-hand side: propagate_dft model, every field evaluates every requested sample
+  have hR := C02.propagateDft_sample (K := ℂ) (R := ℝ) (fun _ => rfl) (fs.map fun f => (⟨f, 0, 0, 0, 0⟩ : TField ℂ ℝ))
+    (dftAlpha dx0 dx1 du0 du1 lam z os).1 (dftAlpha dx0 dx1 du0 du1 lam z os).2 so.1 so.2 so.1 so.2 1 none
+    (by simp only [mul_one]; rw [outExtent_nomask]; simp only; omega) (by simp only [mul_one]; exact hso) i j
+    (by simp only [mul_one]; exact hi) (by simp only [mul_one]; exact hj)
+  simp only [mul_one] at hR
+  rw [hR, List.map_map]
+  congr 1
+  apply List.map_congr_left; intro f _
+  have hw : ((outExtent so.1 so.2 none).inb (i - so.1 / 2) (j - so.2 / 2) &&
+      (propExtent so.1 so.2 0 0).inb (i - so.1 / 2) (j - so.2 / 2)) = true := by
+    rw [Bool.and_eq_true, (C02.whole_array so.1 so.2 _ _), (C02.prop_window so.1 so.2 0 0 _ _)]; omega
+  simp only [Function.comp, hw, if_true]
+  unfold fraunhoferAt
+  apply dft2_get_congr <;> (simp only [cc, RealLike.ofInt]; push_cast; ring)
+
+/-- non-vacuity of `fft_eq_propagate_dft`: a 2x2 field on a 4x4 grid (`dx = du = 1/2`, `z = lambda = 1`, `os = 1`) is accepted -/
+theorem fftShape_example : fftShape (1/2 : ℝ) (1/2) (1/2) (1/2) 1 1 1 = (4, 4) := by
+  have h4 : ((RealLike.ofInt 1 : ℝ) / ((1/2 : ℝ) * (1/2) / (1 * 1 * RealLike.ofInt 1))) = 4 := by
+    simp only [RealLike.ofInt]; norm_num
+  simp only [fftShape, Gen.fftAlphaCall, Gen.dftAlpha, h4, FftLike.roundEven]
+  norm_num
+
+example : ∃ lam g, propagateFft (K := ℂ) (R := ℝ) 1 [⟨⟨2, 2, fun i j => (i + 2 * j + 1 : ℤ)⟩, 0, 0⟩] false 2 2 (1/2) (1/2) (1/2) (1/2) 1 1 1
+    none none = FftOut.ok lam 4 4 (4, 4) g := by
+  simp only [propagateFft, Bool.false_eq_true, if_false, shapeTooBig, scratchTooSmall, fftShapeOut, fftShape_example,
+    FftOut.ok.injEq, true_and]
+  exact ⟨_, _, rfl, rfl⟩
 end complex
 
 /-! ## Known finding (open): anisotropic sampling
